@@ -429,60 +429,147 @@ def _reset():
     import ak.color as color
     for _, c in _classes():
         c._PALETTE_NO_COLOR = None
+    _HELD.clear()
     for c in list(color._GSYNCED_PALETTES):
         if c is not color.GlobalPalette:
             del color._GSYNCED_PALETTES[c]
     color.set_global_colors_config(color.ColorsConfig())
-    gc.collect()
 
 
 def _err(e):
     return "err " + type(e).__name__
 
 
-def _replay(case, on_render=None):
+# --- allocation pressure: make the addresses of discarded enum field palettes the next ones handed out.
+# (Only addresses are steered; any program that allocates objects between two renderings can do the same.)
+_PINNED = []          # filler objects that keep uninteresting free blocks occupied (kept over the whole run)
+_HELD = []            # filler objects sitting on the addresses of discarded cache keys
+_FILLER = None
+
+
+def _live_palette_ids(confs):
+    """ids of the palettes that are still referenced (configuration caches, sub-palettes, per-class caches)"""
+    import ak.color as color
+    todo = [c._PALETTE_NO_COLOR for _, c in _classes() if c._PALETTE_NO_COLOR is not None]
+    todo += list(color._GSYNCED_PALETTES.values())
+    for c in list(confs.values()) + [color._GLOBAL_COLORS_CONF]:
+        if c is not None:
+            todo += list(c._cache.values())
+    seen = set()
+    while todo:
+        p = todo.pop()
+        if id(p) not in seen:
+            seen.add(id(p))
+            todo += list(getattr(p, "_sub_palettes", {}).values())
+    return seen
+
+
+def _key_addrs(enums, confs):
+    """addresses used as keys by the cell caches of the live enum field types whose object is gone"""
+    res = set()
+    for ft in enums.values():
+        for key in getattr(ft, "_cache", {}):
+            if isinstance(key, int):
+                res.add(key)
+    return res - _live_palette_ids(confs) if res else res
+
+
+def _filler_class():
+    global _FILLER
+    if _FILLER is None:
+        from ak.color import Palette
+
+        class _Filler(Palette):
+            pass
+        _FILLER = _Filler
+    return _FILLER
+
+
+def _burst(cls, new=object.__new__):
+    """allocation pressure, part 1 (immediately after a rendering, before anything else allocates):
+    occupy the palette-sized blocks that the rendering has just released"""
+    return [new(cls), new(cls), new(cls), new(cls), new(cls), new(cls), new(cls), new(cls),
+            new(cls), new(cls), new(cls), new(cls), new(cls), new(cls), new(cls), new(cls),
+            new(cls), new(cls), new(cls), new(cls), new(cls), new(cls), new(cls), new(cls)]
+
+
+def _sort_out(fillers, want):
+    """keep the fillers that sit on addresses of discarded cache keys apart from the others"""
+    for f in fillers:
+        (_HELD if id(f) in want else _PINNED).append(f)
+
+
+def _release(pad):
+    """part 2 (right before a rendering): the held blocks are handed out again after `pad` other blocks
+    (the palettes a rendering creates before it asks for the enum field palette)"""
+    _HELD.clear()
+    for _ in range(min(pad, len(_PINNED))):
+        _PINNED.pop()
+
+
+def _flat_descr(conf):
+    return {sid: d.init_str for sid, d in conf.syntax_map.items()}
+
+
+def _replay(case, before=None, after=None):
     """runs the operations of a case on live objects; returns the replies.
-    on_render(i, obj_spec, conf, mode): called after the i-th line (a render) was answered."""
+    before/after(i, conf): called around the rendering requested by line i with the configuration in force"""
     import ak.color as color
     _reset()
     confs, enums, objs = {}, {}, {}
+    filler = _filler_class()
+    failed = set()        # configurations whose constructor raised: what refers to them is skipped
     out = []
-    for i, line in enumerate(case["lines"]):
-        op, *a = line.split()
+    for i, op in enumerate(case["ops"]):
+        if op[0] in ("drop", "setglobal") and op[1] in failed or op[0] == "render" and op[2] in failed:
+            out.append("skip")
+            continue
         try:
-            if op == "conf":
-                confs[a[0]] = color.ColorsConfig(case["confs"][a[0]]["items"], no_color=a[1] == "1")
+            if op[0] == "conf":
+                failed.add(op[1])
+                confs[op[1]] = color.ColorsConfig(case["confs"][op[1]]["items"], no_color=bool(case["confs"][op[1]]["nc"]))
+                failed.discard(op[1])
                 out.append("ok")
-            elif op == "drop":
-                del confs[a[0]]
+            elif op[0] == "drop":
+                del confs[op[1]]
                 gc.collect()
                 out.append("ok")
-            elif op == "setglobal":
-                color.set_global_colors_config(confs[a[0]])
+            elif op[0] == "setglobal":
+                color.set_global_colors_config(confs[op[1]])
                 gc.collect()
                 out.append("ok")
-            elif op == "enum":
-                enums[a[0]] = _mk_enum(case["enums"][a[0]])
+            elif op[0] == "enum":
+                enums[op[1]] = _mk_enum(case["enums"][op[1]])
                 out.append("ok")
-            elif op == "dropenum":
-                del enums[a[0]]
-                for o in [o for o, ob in objs.items() if a[0] in ob.spec.get("types", {}).values()]:
+            elif op[0] == "dropenum":
+                del enums[op[1]]
+                for o in [o for o, ob in objs.items() if op[1] in ob.spec.get("types", {}).values()]:
                     del objs[o]
                 gc.collect()
                 out.append("ok")
-            elif op == "render":
-                o, k, mode = case["obj_of_line"][str(i)], a[1], a[2]
+            elif op[0] == "render":
+                _, o, k, mode = op
                 if o not in objs:
                     objs[o] = _Obj(case["objs"][o], enums)
                 conf = None if k == "g" else confs[k]
-                out.append(objs[o].observe(conf, mode))
-                if on_render is not None:
-                    on_render(i, o, conf if conf is not None else color.get_global_colors_config(), mode)
-            elif op == "gp":
-                acc = list(color.GlobalPalette._LOCAL_SYNTAX)[int(a[0])]
+                cur = conf if conf is not None else color.get_global_colors_config()
+                if before is not None:
+                    before(i, cur)
+                if case["objs"][o].get("types"):
+                    _release(case.get("pad", 0))
+                rep = objs[o].observe(conf, mode)
+                fillers = _burst(filler)
+                _sort_out(fillers, _key_addrs(enums, confs))
+                fillers = None
+                out.append(rep)
+                if after is not None:
+                    after(i, cur)
+                conf = cur = None       # no hidden reference keeps a dropped configuration alive
+            elif op[0] == "gp":
+                acc = list(color.GlobalPalette._LOCAL_SYNTAX)[op[1]]
                 out.append("ok " + enc_str(str(getattr(color.global_palette, acc)("x"))))
-            elif op == "gpi":
-                out.append("ok " + enc_str(str(color.global_palette["" if a[0] == "@" else a[0]]("x"))))
+            elif op[0] == "gpi":
+                out.append("ok " + enc_str(str(color.global_palette[op[1]]("x"))))
             else:
                 out.append("bad-op")
         except Exception as e:
@@ -495,3 +582,710 @@ def impl(case):
         return _replay(case)
     finally:
         _reset()
+
+
+def _finish(case):
+    """derives the protocol lines from the structured operations (shapes from fresh copies of the objects)"""
+    from ak.color import ColorsConfig
+    vregs, lines, shapes = {}, [], {}
+    live_enums = {}
+    for op in case["ops"]:
+        if op[0] == "conf":
+            c = case["confs"][op[1]]
+            lines.append("conf %s %d %s" % (op[1], 1 if c["nc"] else 0, _items_token(ColorsConfig._flatten_dict(c["items"]))))
+        elif op[0] in ("drop", "setglobal"):
+            lines.append("%s %s" % (op[0], op[1]))
+        elif op[0] == "enum":
+            live_enums[op[1]] = case["enums"][op[1]]
+            lines.append("enum " + op[1])
+        elif op[0] == "dropenum":
+            live_enums.pop(op[1], None)
+            lines.append("dropenum " + op[1])
+        elif op[0] == "render":
+            _, o, k, mode = op
+            spec = case["objs"][o]
+            need = {e: live_enums[e] for e in spec.get("types", {}).values()}
+            key = (o, tuple(sorted(need)))
+            if key not in shapes:
+                shapes[key] = shape_of(spec, need, vregs)
+            kind = {"rec": "rec", "hcmd": "hcmd"}.get(spec["kind"], "obj")
+            lines.append("render %s %s %s %s %s" % (o, kind, k, mode, shapes[key]))
+        elif op[0] == "gp":
+            lines.append("gp %d" % op[1])
+        elif op[0] == "gpi":
+            lines.append("gpi " + _sid(op[1]))
+        else:
+            raise ValueError(op)
+    case["lines"] = lines
+    return case
+
+
+# ------------------------------------------------------------------ oracle: the property itself
+_SGR = re.compile("\x1b\\[[0-9;:]*m")
+
+
+def _strip(s):
+    return _SGR.sub("", s)
+
+
+def _cells(s):
+    """every visible character with the escape sequence in force when it is printed"""
+    out, cur, i = [], "", 0
+    while i < len(s):
+        m = _SGR.match(s, i)
+        if m:
+            cur = "" if m.group(0) == "\x1b[0m" else m.group(0)
+            i = m.end()
+        else:
+            out.append((s[i], cur))
+            i += 1
+    return out
+
+
+def _fields(reply):
+    return [dec_str(t) for t in reply.split()[1:]]
+
+
+def _closed(flat):
+    """no description refers to a syntax id that is not there (yet)"""
+    from ak.color import _ColorConfColorDescr
+    for v in flat.values():
+        parent = _ColorConfColorDescr._parse_init_str(v)[0]
+        if parent is not None and parent not in flat:
+            return False
+    return True
+
+
+def _reference(case, i, descr, nc, mode):
+    """the same object, format and configuration description rendered in a fresh state"""
+    import ak.color as color
+    _reset()
+    op = case["ops"][i]
+    live = {}
+    for p in case["ops"][:i]:
+        if p[0] == "enum":
+            live[p[1]] = _mk_enum(case["enums"][p[1]])
+        elif p[0] == "dropenum":
+            live.pop(p[1], None)
+    obj = _Obj(case["objs"][op[1]], live)
+    conf = color.ColorsConfig(dict(descr), no_color=nc)
+    if obj.kind == "hcmd":
+        color.set_global_colors_config(conf)
+        conf = None
+    return obj.observe(conf, mode)
+
+
+def _strict_late():
+    from harness.core import load_known
+    return any(f.get("property") == PROPERTY and f.get("status") == "known" and f.get("match") == "late_resolution"
+               for f in load_known())
+
+
+def oracle(case, replies):
+    import ak.color as color
+    info = {}
+
+    def before(i, conf):
+        info[i] = [_flat_descr(conf), None, conf.no_color]
+
+    def after(i, conf):
+        info[i][1] = _flat_descr(conf)
+    try:
+        _replay(case, before, after)
+        strict = _strict_late()
+        for i, op in enumerate(case["ops"]):
+            rep = replies[i]
+            if op[0] in ("gp", "gpi"):
+                # the synced palette shows the global configuration in force
+                if not rep.startswith("ok "):
+                    return "gp-raises: %s -> %s" % (op, rep)
+                continue
+            if op[0] != "render" or rep == "skip":
+                continue
+            _, o, k, mode = op
+            kind = case["objs"][o]["kind"]
+            if not rep.startswith("ok ") and rep != "ok":
+                return "render-raises: object %s (%s) under configuration %s mode %s -> %s" % (o, kind, k, mode, rep)
+            f = _fields(rep)
+            nc = mode in ("n", "m")
+            # (a) colours never change the layout; no-colour output has no escape character
+            if kind == "hcmd":
+                # the console help has no no-colour form: compare with the rendering under a no-colour configuration
+                plain_ref = _fields(_reference(case, i, {}, True, "c"))
+            else:
+                plain_ref = _fields(_reference(case, i, {}, False, "n"))
+            texts = f[:2] if kind == "rec" else f[:1]
+            refs = plain_ref[:2] if kind == "rec" else plain_ref[:1]
+            for t, r in zip(texts, refs):
+                if ESC in r:
+                    return "nocolor-esc: no-colour rendering of object %s (%s) contains ESC" % (o, kind)
+                if _strip(t) != r:
+                    return "layout: object %s (%s) under configuration %s mode %s: text without escape sequences differs from the no-colour rendering" % (o, kind, k, mode)
+                if nc and t != r:
+                    return "nocolor-esc: no-colour rendering of object %s (%s) mode %s differs from plain text" % (o, kind, mode)
+            if mode == "n" and kind not in ("rec", "hcmd") and f[0] != f[1]:
+                return "nocolor-esc: str() and plain_text() of the no-colour result of object %s differ" % o
+            # (c) line by line = whole
+            if mode in ("l", "m") and kind not in ("rec", "hcmd"):
+                n = int(rep.split()[2])
+                lines = f[2:2 + n] if n else []
+                if _cells(f[0]) != _cells("\n".join(lines)):
+                    return "lines: object %s (%s) mode %s: the iterated lines do not give the whole text" % (o, kind, mode)
+            if kind == "rec" and _cells(f[0]) != _cells(f[1]):
+                return "lines: record %s: str() and ch_text() differ" % o
+            # (b) no memory: the same object / format / configuration description in a fresh state
+            d_before, d_after, conf_nc = info[i]
+            steady = d_before == d_after
+            if steady or _closed(d_before) or strict or nc:
+                ref = _reference(case, i, d_after, conf_nc, mode)
+                if ref != rep:
+                    what = "history" if (steady or _closed(d_before) or nc) else "late"
+                    return "%s: object %s (%s) under configuration %s mode %s is rendered differently in a fresh state" % (
+                        what, o, kind, k, mode)
+        return None
+    finally:
+        _reset()
+
+
+def _late_resolution(case):
+    """a configuration of the case refers to a syntax id that only a palette class registers later"""
+    from ak.color import ColorsConfig, _ColorConfColorDescr
+    provided = set()
+    for _, c in _classes():
+        if c.SYNTAX_DEFAULTS:
+            provided |= set(ColorsConfig._flatten_dict(c.SYNTAX_DEFAULTS))
+    for c in case["confs"].values():
+        flat = ColorsConfig._flatten_dict(c["items"])
+        for v in flat.values():
+            parent = _ColorConfColorDescr._parse_init_str(v)[0]
+            if parent is not None and parent in provided and parent not in flat:
+                return True
+    return False
+
+
+def _known_late(case):
+    if not _late_resolution(case):
+        return False
+    from harness.core import _impl_one
+    import sys
+    msg = _impl_one(sys.modules[__name__], case)[1]
+    return msg is not None and msg.startswith("late:")
+
+
+KNOWN = {"late_resolution": _known_late}
+
+
+# ------------------------------------------------------------------ generators
+_COLORS = ["RED", "GREEN", "BLUE", "YELLOW", "MAGENTA", "CYAN", "WHITE", "BLACK"]
+_BUILTIN_IDS = ["TEXT", "NAME", "KEYWORD", "NUMBER", "OK", "WARN", "ERROR"]
+_CLASS_IDS = ["RECORD.NUMBER", "RECORD.KEYWORD", "RECORD.TITLE", "RECORD.COL_TITLE", "TABLE.BORDER", "TABLE.WARN",
+              "TABLE.HEADER", "GHIST.REPO", "GHIST.BRANCH", "GHIST.HASH", "GHIST.HASH_NOT_MERGED", "GHIST.COMMIT_TIME",
+              "GHIST.COMMIT_NAME", "GHIST.VERSION", "GHIST.VER_NOT_BUILT", "GHIST.VER_NOT_MERGED",
+              "HDOC.ATTR", "HDOC.FUNC_NAME", "HDOC.TAG", "HDOC.WARN"]
+_CUSTOM_IDS = ["X", "Y.Z", "Y.W", "MY_SYNT"]
+_MODS = ["bold", "faint", "underline", "blink", "crossed"]
+
+
+def _rand_color(rng):
+    r = rng.random()
+    if r < 0.55:
+        return rng.choice(_COLORS)
+    if r < 0.65:
+        return "g%d" % rng.randrange(24)
+    if r < 0.8:
+        return str(rng.randrange(256))
+    if r < 0.9:
+        return "(%d,%d,%d)" % (rng.randrange(6), rng.randrange(6), rng.randrange(6))
+    return rng.choice(["-", ""])
+
+
+def _rand_mods(rng):
+    ms = rng.sample(_MODS, rng.choice([0, 0, 1, 1, 2, 3]))
+    return ",".join(("no_" if rng.random() < 0.3 else "") + m for m in ms)
+
+
+def _rand_descr(rng, parents):
+    """a colour description; parents = ids that may be referred to"""
+    r = rng.random()
+    mods = _rand_mods(rng)
+    if r < 0.45 or not parents:
+        col = _rand_color(rng)
+        if rng.random() < 0.3:
+            col += "/" + _rand_color(rng)
+        return col + (":" + mods if mods else "")
+    par = rng.choice(parents)
+    if r < 0.75:
+        return par + (":" + mods if mods else "")
+    col = rng.choice(["", _rand_color(rng)]) + "/" + rng.choice(["", _rand_color(rng)])
+    return par + ":" + col + (":" + mods if mods else "")
+
+
+def _full_map(flat):
+    """everything a configuration with these items can ever contain (first registration wins)"""
+    from ak.color import ColorsConfig
+    m = dict(flat)
+    for k, v in ColorsConfig._flatten_dict(ColorsConfig.BUILT_IN_CONFIG).items():
+        m.setdefault(k, v)
+    for _, c in _classes():
+        if c.SYNTAX_DEFAULTS:
+            for k, v in ColorsConfig._flatten_dict(c.SYNTAX_DEFAULTS).items():
+                m.setdefault(k, v)
+    return m
+
+
+def _cyclic(m):
+    from ak.color import _ColorConfColorDescr
+    par = {k: _ColorConfColorDescr._parse_init_str(v)[0] for k, v in m.items()}
+    for k in m:
+        seen, x = set(), k
+        while x is not None and x in par:
+            if x in seen:
+                return True
+            seen.add(x)
+            x = par[x]
+    return False
+
+
+def _rand_conf(rng, late):
+    """{"nc": 0|1, "items": nested dict}; late = may refer to ids that only palette classes register"""
+    from ak.color import ColorsConfig
+    for _ in range(50):
+        ids = rng.sample(_BUILTIN_IDS, rng.choice([0, 1, 2, 3, 4])) + rng.sample(_CLASS_IDS, rng.choice([0, 1, 2, 4]))
+        ids += rng.sample(_CUSTOM_IDS, rng.choice([0, 0, 1, 2]))
+        if rng.random() < 0.15:
+            ids.append("")
+        rng.shuffle(ids)
+        items = {}
+        for sid in ids:
+            parents = [p for p in ids + _BUILTIN_IDS if p != sid and p != ""]
+            if late:
+                parents += rng.sample(_CLASS_IDS, 3)
+            if rng.random() < 0.05:
+                parents = ["NOSUCH"]
+            items[sid] = _rand_descr(rng, parents)
+        if late and not any(_late_resolution({"confs": {"x": {"items": items}}}) for _ in [0]):
+            sid = rng.choice([i for i in _BUILTIN_IDS + _CLASS_IDS])
+            items[sid] = rng.choice([c for c in _CLASS_IDS if c != sid])
+        try:
+            for v in items.values():
+                _descr_token(v)
+        except ValueError:
+            continue
+        if _cyclic(_full_map(items)):
+            continue
+        # nested form for dotted ids, sometimes
+        nested = {}
+        for k, v in items.items():
+            if "." in k and rng.random() < 0.5 and not isinstance(nested.get(k.split(".")[0]), str) and k.split(".")[0] not in items:
+                nested.setdefault(k.split(".")[0], {})[k.split(".", 1)[1]] = v
+            else:
+                nested[k] = v
+        if ColorsConfig._flatten_dict(nested) != items:
+            nested = items
+        return {"nc": 1 if rng.random() < 0.08 else 0, "items": nested}
+    return {"nc": 0, "items": {}}
+
+
+_WORDS = ["a", "ab", "x y", "name", "Linus", "some text", "Q", "zz top", "été", "Жук", "中文", "", "a-b_c", "{[(", "10%"]
+
+
+def _rand_text(rng, long=False):
+    if long:
+        return " ".join(rng.choice(_WORDS) for _ in range(rng.randrange(3, 8)))
+    return rng.choice(_WORDS)
+
+
+def _rand_scalar(rng):
+    r = rng.random()
+    if r < 0.35:
+        return rng.choice([0, 1, 2, 7, 10, 42, -5, 12345])
+    if r < 0.6:
+        return _rand_text(rng)
+    if r < 0.7:
+        return None
+    if r < 0.8:
+        return rng.choice([True, False])
+    if r < 0.9:
+        return rng.choice([1.5, -0.25, 3.0])
+    return _rand_text(rng, True)
+
+
+def _rand_json(rng, depth):
+    r = rng.random()
+    if depth <= 0 or r < 0.35:
+        return _rand_scalar(rng)
+    if r < 0.7:
+        keys = rng.sample(["a", "b", "key", "k 2", "z", 1, 2, 10], rng.randrange(0, 4))
+        return {"d": [[k, _rand_json(rng, depth - 1)] for k in keys]}
+    n = rng.choice([0, 1, 2, 3, 3, 40]) if depth > 1 else rng.randrange(0, 4)
+    if n == 40:
+        return [rng.randrange(10 ** 5) for _ in range(rng.randrange(30, 70))]
+    if rng.random() < 0.15:
+        return {"t": [_rand_scalar(rng) for _ in range(n)]}
+    return [_rand_json(rng, depth - 1) for _ in range(n)]
+
+
+_ENUM_ACCS = ["name_good", "name_warn", "error", "value", "number", "keyword", "text", "nosuch", ""]
+
+
+def _rand_enum(rng):
+    vals = rng.sample([1, 2, 3, 10, 20, "A", "B", None], rng.randrange(1, 5))
+    spec = {"values": [[v, rng.choice(["one", "two", "Active", "off", "a b"]), rng.choice(_ENUM_ACCS)] for v in vals],
+            "missing": None}
+    if rng.random() < 0.3:
+        spec["missing"] = ["<unk>", rng.choice(["error", "name_warn", "text"])]
+    return spec
+
+
+def _enum_cell(rng, espec):
+    r = rng.random()
+    if r < 0.7:
+        return rng.choice(espec["values"])[0]
+    if r < 0.8:
+        return None
+    return rng.choice([5, 99, "C", 1, 2])
+
+
+def _rand_table(rng, enum_ids, enums):
+    ncol = rng.randrange(1, 5)
+    fields = ["f%d" % i for i in range(ncol)] if rng.random() < 0.5 else rng.sample(["id", "name", "st", "level", "x", "descr"], ncol)
+    types = {}
+    for f in fields:
+        if enum_ids and rng.random() < 0.4:
+            types[f] = rng.choice(enum_ids)
+    nrec = rng.choice([0, 1, 2, 3, 4, 6])
+    records = []
+    for _ in range(nrec):
+        rec = []
+        for f in fields:
+            if f in types:
+                rec.append(_enum_cell(rng, enums[types[f]]))
+            else:
+                rec.append(_rand_scalar(rng))
+        records.append(rec)
+    spec = {"kind": "table", "records": records, "fields": fields}
+    if types:
+        spec["types"] = types
+    if rng.random() < 0.6:
+        cols = []
+        for f in rng.sample(fields, rng.randrange(1, ncol + 1)) if rng.random() < 0.3 else fields:
+            c = f
+            if f in types and rng.random() < 0.6:
+                c += "/" + rng.choice(["val", "name", "full"])
+            if rng.random() < 0.2:
+                c += "!"
+            r = rng.random()
+            if r < 0.25:
+                c += ":%d" % rng.randrange(0, 9)
+            elif r < 0.5:
+                a = rng.randrange(0, 6)
+                c += ":%d-%d" % (a, a + rng.randrange(0, 8))
+            cols.append(c)
+        spec["fmt"] = ",".join(cols)
+        if rng.random() < 0.25:
+            spec["fmt"] += ";%d:%d" % (rng.randrange(0, 3), rng.randrange(0, 3))
+    if rng.random() < 0.3:
+        spec["header"] = _rand_text(rng, rng.random() < 0.3)
+    if rng.random() < 0.2:
+        spec["footer"] = rng.choice(["", "the end", _rand_text(rng, True)])
+    if rng.random() < 0.25:
+        f = rng.choice(fields)
+        spec["titles"] = {f: rng.choice(["Title", "two\nlines", ["a", 7], [None, "b"], "T"])}
+    if rng.random() < 0.1:
+        spec["limits"] = [rng.randrange(0, 3), rng.randrange(0, 3)]
+    return spec
+
+
+def _rand_rec(rng, enum_ids, enums):
+    ncol = rng.randrange(1, 4)
+    fields = ["f%d" % i for i in range(ncol)]
+    types = {f: rng.choice(enum_ids) for f in fields if enum_ids and rng.random() < 0.4}
+    record = [_enum_cell(rng, enums[types[f]]) if f in types else _rand_scalar(rng) for f in fields]
+    cols = []
+    for f in fields:
+        c = f
+        if f in types and rng.random() < 0.6:
+            c += "/" + rng.choice(["val", "name", "full"])
+        if rng.random() < 0.3:
+            c += ":%d-60" % rng.randrange(0, 12)
+        cols.append(c)
+    spec = {"kind": "rec", "fmt": ",".join(cols), "fields": fields, "record": record}
+    if types:
+        spec["types"] = types
+    return spec
+
+
+def _rand_buildnum(rng):
+    r = rng.random()
+    if r < 0.1:
+        return "not_built"
+    if r < 0.2:
+        return "not_merged"
+    return [rng.randrange(1, 12), rng.randrange(0, 30), rng.randrange(0, 300)]
+
+
+def _rand_commit(rng):
+    return {"sha": "%040x" % rng.getrandbits(160), "date": 1600000000 + rng.randrange(10 ** 8),
+            "msg": rng.choice(["fix it", " trailing ", "two\nlines", "", "BUG-12 do things"]),
+            "author": rng.choice(["Bob", "A very long author name indeed", "", "Éric"])}
+
+
+def _rand_ghist(rng):
+    repos = []
+    for r in range(rng.randrange(0, 3)):
+        branches = []
+        for b in range(rng.randrange(0, 3)):
+            builds = []
+            for _ in range(rng.randrange(0, 3)):
+                bd = {"num": _rand_buildnum(rng)}
+                if rng.random() < 0.7:
+                    bd["commit"] = _rand_commit(rng)
+                bd["included_at"] = [[rng.choice(["parent", "top"]), rng.choice(["master", "rel/1"]), _rand_buildnum(rng)]
+                                     for _ in range(rng.choice([0, 0, 1, 2]))]
+                bd["bumps"] = [["lib%d" % j, [1, j, 0], [[1, 0, x] for x in range(rng.randrange(0, 3))]]
+                               for j in range(rng.choice([0, 0, 1, 2]))]
+                bd["commits"] = [_rand_commit(rng) for _ in range(rng.randrange(0, 3))]
+                builds.append(bd)
+            branches.append([rng.choice(["master", "release/1.2", "dev"]), builds])
+        repos.append(["repo%d" % r, branches])
+    return {"kind": "ghist", "repos": repos}
+
+
+def _rand_hcmd(rng):
+    doc = rng.choice(["Short descr.", "Does things #inline", "", "One line"])
+    if rng.random() < 0.7:
+        doc += "\n\n    " + rng.choice(["Long text.", "Two\n    lines of details."])
+    if rng.random() < 0.7:
+        doc += "\n\n    " + " ".join("#" + t for t in rng.sample(["tag1", "t2", "misc", "x"], rng.randrange(1, 4))) + "\n    "
+    return {"kind": "hcmd", "name": rng.choice(["f", "do_it", "method_x"]),
+            "args": rng.choice(["", "a", "a, b=1", "self, *args, **kwargs"]), "doc": doc}
+
+
+def _rand_obj(rng, enum_ids, enums):
+    r = rng.random()
+    if r < 0.42:
+        return _rand_table(rng, enum_ids, enums)
+    if r < 0.67:
+        return {"kind": "pp", "json": rng.random() < 0.3, "value": _rand_json(rng, 3)}
+    if r < 0.82:
+        return _rand_rec(rng, enum_ids, enums)
+    if r < 0.91:
+        return _rand_ghist(rng)
+    return _rand_hcmd(rng)
+
+
+def _shape_ok(spec, enums):
+    try:
+        shape_of(spec, {e: enums[e] for e in spec.get("types", {}).values()}, {})
+        return True
+    except Exception:
+        return False
+
+
+def _modes(spec, rng):
+    if spec["kind"] == "hcmd":
+        return "c"
+    if spec["kind"] == "rec":
+        return rng.choice("ccn")
+    return rng.choice("cccnlm")
+
+
+def _gen_history(rng, tier, late, pattern):
+    enums = {str(e): _rand_enum(rng) for e in range(rng.randrange(1, 3))}
+    enum_ids = sorted(enums)
+    objs = {}
+    n_obj = rng.randrange(2, 5)
+    while len(objs) < n_obj:
+        spec = _rand_obj(rng, enum_ids, enums)
+        if pattern == "reuse" and not objs:
+            # a table with an enum column: the cell cache is what the discarded palettes can poison
+            spec = _rand_table(rng, enum_ids, enums)
+            if not spec.get("types") or not spec["records"]:
+                continue
+            spec.pop("limits", None)
+        if _shape_ok(spec, enums):
+            objs[str(len(objs))] = spec
+    confs, ops = {}, []
+    live, next_conf = [], [1]
+
+    def new_conf():
+        k = str(next_conf[0])
+        next_conf[0] += 1
+        confs[k] = _rand_conf(rng, late and rng.random() < 0.7)
+        ops.append(["conf", k])
+        live.append(k)
+        return k
+    for e in enum_ids:
+        ops.append(["enum", e])
+    live_enums = set(enum_ids)
+
+    def renderable():
+        return [o for o, s in objs.items() if set(s.get("types", {}).values()) <= live_enums]
+
+    def render(o=None, k=None, mode=None):
+        cand = renderable()
+        if not cand:
+            return
+        o = o if o is not None else rng.choice(cand)
+        spec = objs[o]
+        if spec["kind"] == "hcmd":
+            k = "g"
+        elif k is None:
+            k = rng.choice(live + ["g"]) if live else "g"
+        ops.append(["render", o, k, mode or _modes(spec, rng)])
+    new_conf()
+    if pattern == "reuse":
+        a = live[-1]
+        render("0", a, "c")
+        if rng.random() < 0.5:
+            render()
+        ops.append(["drop", a])
+        live.remove(a)
+        b = new_conf()
+        render("0", b, rng.choice("cl"))
+    n_ops = rng.randrange(3, 13)
+    while len(ops) < n_ops + len(enum_ids) + 1:
+        r = rng.random()
+        if r < 0.6:
+            render()
+        elif r < 0.7 and len(live) < 4:
+            new_conf()
+        elif r < 0.8 and live:
+            k = rng.choice(live)
+            ops.append(["drop", k])
+            live.remove(k)
+            if rng.random() < 0.7:
+                new_conf()
+        elif r < 0.86 and live:
+            ops.append(["setglobal", rng.choice(live)])
+        elif r < 0.92:
+            if rng.random() < 0.5:
+                ops.append(["gp", rng.randrange(6)])
+            else:
+                ops.append(["gpi", rng.choice(_BUILTIN_IDS + _CLASS_IDS + _CUSTOM_IDS + ["", "NOSUCH"])])
+        elif r < 0.96 and live_enums:
+            e = rng.choice(sorted(live_enums))
+            ops.append(["dropenum", e])
+            live_enums.discard(e)
+        elif set(enum_ids) - live_enums:
+            e = rng.choice(sorted(set(enum_ids) - live_enums))
+            ops.append(["enum", e])
+            live_enums.add(e)
+    if not any(op[0] == "render" for op in ops):
+        render()
+    case = {"ops": ops, "confs": confs, "enums": enums, "objs": objs,
+            "meta": {"kind": ("late-" if late else "") + pattern}}
+    return _finish(case)
+
+
+def gen_cases(rng, tier):
+    n = 260 if tier == "quick" else 6000
+    for i in range(n):
+        late = i % 5 == 4
+        pattern = "reuse" if i % 3 == 0 else "random"
+        yield _gen_history(rng, tier, late, pattern)
+
+
+def search_cases(rng, tier):
+    """directed search: discard a configuration between two renderings of an enum table"""
+    for i in range(400 if tier == "quick" else 4000):
+        yield _gen_history(rng, tier, False, "reuse")
+
+
+def _valid(case):
+    confs, enums = set(), set()
+    for op in case["ops"]:
+        if op[0] == "conf":
+            if op[1] in confs:
+                return False
+            confs.add(op[1])
+        elif op[0] in ("drop", "setglobal"):
+            if op[1] not in confs:
+                return False
+            if op[0] == "drop":
+                confs.discard(op[1])
+        elif op[0] == "enum":
+            if op[1] in enums:
+                return False
+            enums.add(op[1])
+        elif op[0] == "dropenum":
+            if op[1] not in enums:
+                return False
+            enums.discard(op[1])
+        elif op[0] == "render":
+            if op[2] != "g" and op[2] not in confs:
+                return False
+            if not set(case["objs"][op[1]].get("types", {}).values()) <= enums:
+                return False
+    return True
+
+
+def shrink(case):
+    import copy
+    ops = case["ops"]
+    for i in range(len(ops)):
+        cand = dict(case, ops=ops[:i] + ops[i + 1:])
+        if _valid(cand) and any(op[0] == "render" for op in cand["ops"]):
+            try:
+                yield _finish(dict(cand))
+            except Exception:
+                pass
+    # simpler configurations
+    for k, c in case["confs"].items():
+        from ak.color import ColorsConfig
+        flat = ColorsConfig._flatten_dict(c["items"])
+        for sid in flat:
+            rest = {x: v for x, v in flat.items() if x != sid}
+            cand = copy.deepcopy(case)
+            cand["confs"][k]["items"] = rest
+            try:
+                yield _finish(cand)
+            except Exception:
+                pass
+    # smaller objects
+    for o, spec in case["objs"].items():
+        if spec["kind"] == "table":
+            for j in range(len(spec["records"])):
+                cand = copy.deepcopy(case)
+                del cand["objs"][o]["records"][j]
+                try:
+                    yield _finish(cand)
+                except Exception:
+                    pass
+            for key in ("header", "footer", "titles", "limits"):
+                if key in spec:
+                    cand = copy.deepcopy(case)
+                    del cand["objs"][o][key]
+                    try:
+                        yield _finish(cand)
+                    except Exception:
+                        pass
+        elif spec["kind"] == "pp" and spec["value"] not in (1, None):
+            cand = copy.deepcopy(case)
+            cand["objs"][o]["value"] = 1
+            yield _finish(cand)
+
+
+def observable(i, line):
+    # replies to conf / drop / setglobal / enum lines only acknowledge the operation
+    return line.split()[0] in ("render", "gp", "gpi", "conf")
+
+
+def nontrivial(case, replies):
+    """at least two renderings and a configuration change (drop / second configuration / new global) in between"""
+    kinds = [op[0] for op in case["ops"]]
+    return kinds.count("render") >= 2 and (kinds.count("conf") >= 2 or "drop" in kinds or "setglobal" in kinds)
+
+
+def tags(case, replies):
+    yield case.get("meta", {}).get("kind", "?")
+    for op in case["ops"]:
+        if op[0] == "render":
+            yield "render:%s:%s" % (case["objs"][op[1]]["kind"], op[3])
+        else:
+            yield "op:" + op[0]
+    yield "ops:%d" % min(len(case["ops"]), 15)
+    yield "confs:%d" % len(case["confs"])
+    for r in replies:
+        if r.startswith("err"):
+            yield "reply:" + r
